@@ -2,6 +2,7 @@ package checks
 
 import (
 	"fmt"
+	"github.com/golang/protobuf/proto"
 	"sort"
 	"strings"
 	"time"
@@ -208,7 +209,7 @@ type c08Unit struct {
 func runC08(r *h.Run) {
 	thorough := r.Tier == "thorough"
 	sp := newSpaceCtx(r.Seed)
-	r.Rule = "(i) every key SEQUENCE (ordered, repetitions allowed) of length <= 4 (quick) / 5 (thorough) over U(Sigma4,2) x 4 prefix modes x {nil, distinct values, values equal in pairs, all values equal}; (ii) valid lists of 8..200 keys with one injected order violation (duplicate, swapped neighbours, key followed by its own prefix, 0x7f/0x80 signed-order inversion) at EVERY index, and two violations at every pair of indexes (n <= 40); (ii-b) every list of the shared scaffold set (257-bit nodes, big-node pairs / nibble / alias shapes, short tables, shifts, sweep) over K(U21,2); (iii) lists whose single-branch run is r bytes long for every r of the tier's range, ending on a high- and a low-nibble difference, at the root, under an inner node, with a tail key, and ending at a 12-way fan-out (257-bit node) at the root and under a 257-bit root; oracle: strictly ascending <=> accepted, rejected => ErrKeyOutOfOrder and nil trie, accepted => every own key is found with its value; beyond the documented 16 KiB either outcome is allowed but never silent loss. Distinct by construction; non-trivial = at least 2 keys"
+	r.Rule = "(i) every key SEQUENCE (ordered, repetitions allowed) of length <= 4 (quick) / 5 (thorough) over U(Sigma4,2) x 4 prefix modes x {nil, distinct values, values equal in pairs, all values equal}; (ii) valid lists of 8..200 keys with one injected order violation (duplicate, swapped neighbours, key followed by its own prefix, 0x7f/0x80 signed-order inversion) at EVERY index, and two violations at every pair of indexes (n <= 40); (ii-b) every list of the shared scaffold set (257-bit nodes, big-node pairs / nibble / alias shapes, short tables, shifts, sweep) over K(U21,2) and the large regular families (up to 20 000 keys, among them one with 201 257-bit nodes); (iii) lists whose single-branch run is r bytes long for every r of the tier's range, ending on a high- and a low-nibble difference, at the root, under an inner node, with a tail key, and ending at a 12-way fan-out (257-bit node) at the root and under a 257-bit root; oracle: strictly ascending <=> accepted, rejected => ErrKeyOutOfOrder and nil trie, accepted => every own key is found with its value; beyond the documented 16 KiB either outcome is allowed but never silent loss. Distinct by construction; non-trivial = at least 2 keys"
 	r.Assumptions = []string{"documented key length limit = 16 KiB (README)", "a refusal (error or panic) of an over-limit input is tolerated, a lost key is not"}
 	r.Bounds["alphabet"] = fmt.Sprintf("%x", sp.sigma)
 	maxLen := 4
@@ -351,6 +352,15 @@ func runC08(r *h.Run) {
 		for k := 0; k <= 70; k++ {
 			s := h.ScaffoldFixed(fmt.Sprintf("sweep%d", k), h.SweepFiller(k), "\xff").Apply([]string{"", "\x0f", "\xf0\xff"})
 			if !emit(c08Unit{kind: "inj", keys: s.Keys, desc: "scaffold " + s.Name}) {
+				return
+			}
+		}
+		// the large regular families (among them > 128 257-bit nodes)
+		for _, f := range manyFamilies(sp, thorough) {
+			if len(f.Keys) > 20000 {
+				continue
+			}
+			if !emit(c08Unit{kind: "inj", keys: f.Keys, desc: "family " + f.Name}) {
 				return
 			}
 		}
@@ -556,6 +566,10 @@ type c12Case struct {
 	Offsets    []int64  `json:"offsets"`
 	Mode       string   `json:"mode"` // get | rangeget
 	QueriesHex []string `json:"queries_hex,omitempty"`
+	// reload history: the index was first built over PriorKeysHex, then refilled
+	// in place with the index over KeysHex through Form
+	PriorKeysHex []string `json:"prior_keys_hex,omitempty"`
+	Form         string   `json:"form,omitempty"` // unmarshal | proto | assign
 }
 
 func evalC12(w *h.Worker, keys []string, offsets []int64, mode string, qs []string) *h.Viol {
@@ -613,17 +627,105 @@ func evalC12(w *h.Worker, keys []string, offsets []int64, mode string, qs []stri
 	return viol
 }
 
+// evalC12Reload: ONE SlimIndex value is built over prior, then refilled in place
+// with the index over keys (si.Unmarshal of its marshaled bytes, proto.Unmarshal
+// into it, or assignment of the public SlimTrie field) and given the matching
+// reader: it must be an exact map over keys.
+func evalC12Reload(w *h.Worker, prior, keys []string, bsz int, form string, qs []string) *h.Viol {
+	mk := func(ks []string) ([]index.OffsetIndexItem, *recReader) {
+		rr := &recReader{byOffset: map[int64][]int{}, keys: ks}
+		items := make([]index.OffsetIndexItem, len(ks))
+		for i, k := range ks {
+			off := int64(i/bsz) * 4096
+			items[i] = index.OffsetIndexItem{Key: k, Offset: off}
+			rr.byOffset[off] = append(rr.byOffset[off], i)
+		}
+		return items, rr
+	}
+	var viol *h.Viol
+	if p := h.Safely(func() {
+		itA, rrA := mk(prior)
+		si, err := index.NewSlimIndex(itA, rrA)
+		if err != nil {
+			return // a refused build is C08's / the plain C12 phases' business
+		}
+		itB, rrB := mk(keys)
+		other, err := index.NewSlimIndex(itB, rrB)
+		if err != nil {
+			return
+		}
+		switch form {
+		case "unmarshal":
+			buf, merr := other.Marshal()
+			if merr != nil {
+				viol = &h.Viol{Sig: "index-marshal-error", Msg: "Marshal of a SlimIndex failed: " + merr.Error()}
+				return
+			}
+			err = si.Unmarshal(buf)
+		case "proto":
+			buf, merr := proto.Marshal(other)
+			if merr != nil {
+				viol = &h.Viol{Sig: "index-marshal-error", Msg: "proto.Marshal of a SlimIndex failed: " + merr.Error()}
+				return
+			}
+			err = proto.Unmarshal(buf, si)
+		case "assign":
+			si.SlimTrie = other.SlimTrie
+		}
+		if err != nil {
+			viol = &h.Viol{Sig: "index-reload-error", Msg: fmt.Sprintf("reloading a SlimIndex in place (%s) failed: %v", form, err)}
+			return
+		}
+		si.DataReader = rrB
+		w.Trans++
+		present := map[string]bool{}
+		for _, k := range keys {
+			present[k] = true
+		}
+		for i := 0; i < len(keys)+len(qs); i++ {
+			var q string
+			if i < len(keys) {
+				q = keys[i]
+			} else {
+				q = qs[i-len(keys)]
+				if present[q] {
+					continue
+				}
+			}
+			var v string
+			var found bool
+			api := "RangeGet"
+			if bsz == 1 && i%2 == 0 {
+				api = "Get"
+				v, found = si.Get(q)
+			} else {
+				v, found = si.RangeGet(q)
+			}
+			w.Trans++
+			if present[q] != found || (found && v != "rec:"+q) || (!found && v != "") {
+				viol = &h.Viol{Sig: "index-reload", Msg: fmt.Sprintf("after refilling the index in place (%s): %s(%s) = (%q,%v), want found=%v", form, api, briefQ(q), v, found, present[q])}
+				return
+			}
+		}
+	}); p != nil {
+		return &h.Viol{Sig: "index-panic", Msg: fmt.Sprintf("reload (%s) panicked: %v", form, p)}
+	}
+	return viol
+}
+
 type c12Unit struct {
 	keys []string
 	qs   []string
 	name string
 	lite bool // large record sets: one gap pattern, block sizes 1, 3 and 64
+	// reload history (prior != nil)
+	prior []string
 }
 
 func runC12(r *h.Run) {
 	thorough := r.Tier == "thorough"
 	sp := newSpaceCtx(r.Seed)
-	r.Rule = "record sets = all subsets of U(Sigma4,2) up to the tier's size, the shared scaffold set (257-bit nodes, big-node pair / nibble / alias shapes, short tables, shifts) over K(U21,2), plus regular large sets; Get with strictly increasing offsets in 6 patterns (gaps 1, 7, 4096, near 2^62, negative offsets increasing through -1 and 0, near -2^62); RangeGet with block offsets for every block size 1..min(64,n) (records grouped in input order; odd block sizes start at negative offsets); every query of Q plus per-key mutations; the reader verifies the key among the records stored at the offset; oracle: (record, true) for indexed keys, (\"\", false) for every other string. A state is a distinct (key set, offsets); non-trivial = at least 2 records"
+	r.Rule = "record sets = all subsets of U(Sigma4,2) up to the tier's size, the shared scaffold set (257-bit nodes, big-node pair / nibble / alias shapes, short tables, shifts) over K(U21,2), plus regular large sets; Get with strictly increasing offsets in 6 patterns (gaps 1, 7, 4096, near 2^62, negative offsets increasing through -1 and 0, near -2^62); RangeGet with block offsets for every block size 1..min(64,n) (records grouped in input order; odd block sizes start at negative offsets); every query of Q plus per-key mutations; reload histories: one SlimIndex value built over A and refilled in place with the index over B (si.Unmarshal, proto.Unmarshal, assignment of the public SlimTrie field) for pairs of K(U21,2), which must then be an exact map over B; the reader verifies the key among the records stored at the offset; oracle: (record, true) for indexed keys, (\"\", false) for every other string. A state is a distinct (key set, offsets); non-trivial = at least 2 records"
 	r.Assumptions = []string{"the reader is a harness-side map from offset to records; an unknown offset reads as not found"}
 	k := 4
 	if thorough {
@@ -634,6 +736,23 @@ func runC12(r *h.Run) {
 	work := func(w *h.Worker, x interface{}) {
 		u := x.(c12Unit)
 		w.Begin(func() string { return "C12 " + u.name })
+		if u.prior != nil {
+			for _, form := range []string{"unmarshal", "proto", "assign"} {
+				for _, bsz := range []int{1, 2} {
+					w.Evals++
+					w.Tick()
+					w.State(h.Hash64([]byte(strings.Join(u.prior, "\x01")), []byte(strings.Join(u.keys, "\x01")), []byte(form), []byte{byte(bsz)}), len(u.keys) >= 2)
+					if v := evalC12Reload(w, u.prior, u.keys, bsz, form, u.qs); v != nil {
+						cj := c12Case{KeysHex: hexKeys(u.keys), PriorKeysHex: hexKeys(u.prior), Form: form, Offsets: []int64{int64(bsz)}, QueriesHex: hexKeys(u.qs)}
+						v.Msg += fmt.Sprintf(" | prior keys=%v keys=%v block size %d", cj.PriorKeysHex, cj.KeysHex, bsz)
+						v.Kind, v.Case, v.Unit = "c12", cj, w.Unit()
+						w.Report(*v)
+						return
+					}
+				}
+			}
+			return
+		}
 		n := len(u.keys)
 		for gi, g := range gaps {
 			if u.lite && gi != 1 && gi != 4 {
@@ -746,6 +865,29 @@ func runC12(r *h.Run) {
 			}
 		}, work)
 	}
+	// reload histories: one SlimIndex value built over A, refilled in place with
+	// the index over B (three forms), for all pairs of record sets of K(U21,2)
+	{
+		rk := 2
+		r.Bounds["reload_histories"] = fmt.Sprintf("all ordered pairs (A, B) of K(U21,%d) x {si.Unmarshal, proto.Unmarshal, field assignment} x block sizes {1, 2}", rk)
+		var sets [][]string
+		it := h.NewSubsetIter(len(sp.u2), 1, rk)
+		for idx := it.Next(); idx != nil; idx = it.Next() {
+			sets = append(sets, h.Pick(sp.u2, idx))
+		}
+		r.Phase("reload-histories", func(emit func(u interface{}) bool) {
+			for ai, a := range sets {
+				for bi, b := range sets {
+					if !thorough && (ai+bi)%4 != 0 {
+						continue // quick: every fourth pair
+					}
+					if !emit(c12Unit{keys: b, prior: a, qs: sp.q2, name: "reload"}) {
+						return
+					}
+				}
+			}
+		}, work)
+	}
 	fams := manyFamilies(sp, thorough)
 	r.Phase("regular-sets", func(emit func(u interface{}) bool) {
 		for _, f := range fams {
@@ -805,6 +947,9 @@ func replayC12(prop string, raw []byte) *h.Viol {
 		qs = manyQueries(keys)
 	}
 	w := h.NewRun(prop, "quick", 0, "model_checking", 0).W0()
+	if cj.Form != "" {
+		return evalC12Reload(w, dec(cj.PriorKeysHex), keys, int(cj.Offsets[0]), cj.Form, qs)
+	}
 	return evalC12(w, keys, cj.Offsets, cj.Mode, qs)
 }
 
@@ -1154,6 +1299,22 @@ func runC17(r *h.Run) {
 		}
 		w.Sample(map[string]interface{}{"family": u.family, "n": len(u.keys), "prefixes": len(ps)})
 	}
+	// the adversarial families first: they are the cheapest phase and the one
+	// that matters most if a later phase uses up the budget
+	fams := c17Families(sp, thorough)
+	var names []string
+	for n := range fams {
+		names = append(names, n)
+	}
+	sort.Strings(names)
+	r.Bounds["families"] = names
+	r.Phase("families", func(emit func(u interface{}) bool) {
+		for _, n := range names {
+			if !emit(c17Unit{keys: fams[n], family: n}) {
+				return
+			}
+		}
+	}, work)
 	r.Phase("subsets", func(emit func(u interface{}) bool) {
 		it := h.NewSubsetIter(len(sp.u2), 0, k)
 		for idx := it.Next(); idx != nil; idx = it.Next() {
@@ -1167,6 +1328,9 @@ func runC17(r *h.Run) {
 		it := h.NewSubsetIter(len(sp.u2), 0, 2)
 		for idx := it.Next(); idx != nil; idx = it.Next() {
 			for _, sc := range scs {
+				if thorough && len(idx) == 2 && strings.HasPrefix(sc.Name, "shift") {
+					continue // thorough: the 130 shift offsets range over K(U21,1)
+				}
 				s := sc.Apply(h.Pick(sp.u2, idx))
 				if !emit(c17Unit{keys: s.Keys, family: "scaffold:" + s.Name, small: true}) {
 					return
@@ -1185,20 +1349,6 @@ func runC17(r *h.Run) {
 			}
 		}, work)
 	}
-	fams := c17Families(sp, thorough)
-	var names []string
-	for n := range fams {
-		names = append(names, n)
-	}
-	sort.Strings(names)
-	r.Bounds["families"] = names
-	r.Phase("families", func(emit func(u interface{}) bool) {
-		for _, n := range names {
-			if !emit(c17Unit{keys: fams[n], family: n}) {
-				return
-			}
-		}
-	}, work)
 }
 
 func replayC17(prop string, raw []byte) *h.Viol {
